@@ -13,7 +13,8 @@
                    queue entry if it is still there (reset_queue_entry), re-test the condition
                    (the `while` of wait) -> take or enqueue again
      TSleep n    : timed waiter inside cv.wait_until -> agent.sleep_until; oracle bit = "deadline
-                   passed".  not passed: a pika task yields (phase end), an OS thread sleeps.
+                   passed".  not passed: a pika task yields, an OS thread sleeps (no state change:
+                   a yield does NOT reliably clear a stale resume, so the token is kept).
                    passed: re-lock; still queued -> timeout -> false; popped (signaled) -> re-test
                    (counting_semaphore::wait_until after the F1 fix: only `timeout` returns false)
      SigLoop     : signal(): notify_one returned true (queue not empty); re-lock, next iteration
@@ -42,7 +43,9 @@ Inductive sop :=
 | SlWait (u : Z)           (* sliding wait(upper) *)
 | SlTryWait (u : Z)        (* sliding try_wait(upper) *)
 | SlSignal (lo : Z)        (* sliding signal(lower) *)
-| StaleTok.                (* environment: an earlier primitive of this phase left a wake-up in flight *)
+| StaleResume (w : nat).   (* environment: somebody's stale resume aimed at pika task w arrives now (a delayed
+                              set_active_state retry helper): may be issued by any thread at any time, so a
+                              suspend may return spuriously at ANY time — also after intervening yields *)
 
 Inductive wcond := CAcq (n : Z) | CSl (u : Z).
 
@@ -96,7 +99,7 @@ Definition take (g : sem_g) (c : wcond) : sem_g :=
   | CSl _ => g
   end.
 
-Definition cur_op (l : sem_l) : sop := hd StaleTok (todo l).
+Definition cur_op (l : sem_l) : sop := hd (StaleResume 0) (todo l).
 Definition log_ev (g : sem_g) (t : nat) (op : sop) (res : bool) (avail taken : Z) : sem_g :=
   set_slog g ({| ev_tid := t; ev_op := op; ev_res := res; ev_avail := avail; ev_taken := taken;
                  ev_lower := lower g; ev_sig_active := nonempty (sigl g) |} :: slog g).
@@ -147,9 +150,9 @@ Definition sem_tstep (kind : nat -> akind) (passed : bool) (t : nat) (g : sem_g)
   | Idle =>
       match todo l with
       | [] => (g, l)
-      | StaleTok :: _ =>
-          (match kind t with
-           | Task => set_ag g (upd (ag g) t {| tok := true; blocked := false |})
+      | StaleResume w :: _ =>
+          (match kind w with
+           | Task => set_ag g (upd (ag g) w (a_resume (ag g w)))
            | OsThr => g end, done_l l)
       | op :: _ =>
           if is_free g then
@@ -172,7 +175,7 @@ Definition sem_tstep (kind : nat -> akind) (passed : bool) (t : nat) (g : sem_g)
                 else (log_ev g t op true (value g) 0, done_l l)
             | SlSignal lo =>
                 notify kind t (set_lower g (Z.max lo (lower g))) l false (Z.of_nat (length (queue g)))
-            | StaleTok => (g, l)
+            | StaleResume _ => (g, l)
             end
           else (g, l)
       end
@@ -189,10 +192,7 @@ Definition sem_tstep (kind : nat -> akind) (passed : bool) (t : nat) (g : sem_g)
             if value g' <? n then (enqueue g' t, l)
             else (log_ev (take g' (CAcq n)) t (cur_op l) true (value g') n, done_l l)
         else (g, l)
-      else
-        (match kind t with
-         | Task => set_ag g (upd (ag g) t (a_phase_end (ag g t)))
-         | OsThr => g end, l)
+      else (g, l)      (* a task yields, an OS thread sleeps: neither clears a pending stale resume *)
   | SigLoop chk k => if is_free g then notify kind t g l chk k else (g, l)
   | ResWait w chk k =>
       if blocked (ag g w) then
